@@ -3,7 +3,7 @@ Deciding step: the offline ledger checker - every query is compared with an inde
 declared object's contents at each step boundary (prefix bakes), incl. the ValueError branch and additivity."""
 from __future__ import annotations
 
-from .common import shard, run_cases, BASE_ASSUMPTIONS
+from .common import under_display_configs, shard, run_cases, BASE_ASSUMPTIONS
 
 ID = 'C09'
 LEVEL = 'exploration'
@@ -29,8 +29,8 @@ def required_buckets(tier):
 
 def plan(tier, seed):
     if tier == 'quick':
-        return shard('program', 240, 14)
-    return shard('program', 7000, 40)
+        return shard('program', 240, 14) + under_display_configs(shard('program', 30, 2))
+    return shard('program', 7000, 40) + under_display_configs(shard('program', 700, 8))
 
 
 def run_job(job):
